@@ -272,7 +272,7 @@ func raceMode(run *vk.Run, lines []string) {
 	hf := filepath.Join(dir, "histories.json")
 	os.WriteFile(hf, b, 0o644)
 	logPath := filepath.Join(dir, "race-report")
-	cmd := exec.Command(bin, "-histories", hf, "-seed", fmt.Sprint(run.Seed), "-rounds", fmt.Sprint(run.Pick(2, 6)))
+	cmd := exec.Command(bin, "-histories", hf, "-seed", fmt.Sprint(run.Seed), "-rounds", fmt.Sprint(run.Pick(2, 6)), "-stress", fmt.Sprint(run.Pick(1200, 8000)), "-stress-kinds", []string{"scrypt,x25519", "scrypt,x25519,ssh-ed25519"}[run.Pick(0, 1)])
 	cmd.Env = append(os.Environ(), "GORACE=log_path="+logPath+" exitcode=66 halt_on_error=0")
 	out, err := cmd.CombinedOutput()
 	run.Eval(len(hs))
